@@ -724,8 +724,13 @@ def check_property(pid, tier, seed):
             kres = []
             for h in cfg.get("kani", []):
                 kr = kani_run(h, playback=True)
+                bounded = h in ("match_result_add_transaction",)
                 kres.append({"harness": h, "status": kr["status"], "checks": kr["checks"], "wall_s": round(kr["wall"], 1),
-                             "complete": True, "note": "loop-free, full-domain symbolic inputs: complete for the compiled crate"})
+                             "complete": not bounded,
+                             "note": ("full-domain symbolic quantities; #[kani::unwind(3)] bounds the growth loop of the one-element Vec push (unwinding assertions on): bounded in that sense only, not counted as proved" if bounded
+                                      else "loop-free, full-domain symbolic inputs: complete for the compiled crate")})
+                if bounded:
+                    cov["bounded_checks"].append({"harness": h, "bound": "unwind 3", "status": kr["status"]})
                 if kr["status"] == "FAILED":
                     rp = None
                     if kr["vecs"] and h in KANI_INPUTS:
